@@ -1,7 +1,7 @@
 (* C04 — dag_to_cpdag returns the essential graph of the DAG's Markov equivalence class. *)
 From Coq Require Import List Arith.
 From PG Require Import Base.ListSet Graph.MGraph C04.Dag C04.Model C04.Spec C04.Proofs C04.Structure C04.Classify
-  C04.EssRefl C04.Bounded_4 C04.Cover.
+  C04.EssRefl C04.Bounded_4 C04.Cover C04.Invariant C04.Bounded_5 C04.VStruct C04.VStructCor.
 Import ListNotations.
 
 (* unbounded: the labelling loop never runs out of fuel, for any graph and any node order *)
@@ -17,6 +17,19 @@ Theorem cpdag_structure : forall d ord, is_dag d -> topo d ord ->
 Proof. exact cpdag_structure_thm. Qed.
 Print Assumptions cpdag_structure.
 
+(* UNBOUNDED (one half of 'directed iff essential' restricted to v-structures): every edge of a v-structure of the DAG
+   is labelled compelled, for every DAG and every topological order *)
+Theorem cpdag_vstructs_compelled : forall d ord vs c r, is_dag d -> topo d ord -> cpdag_model d ord = Some (vs, c, r) ->
+  forall a y b, Vstr d a y b -> In (a, y) c.
+Proof. exact cpdag_vstructs_compelled_thm. Qed.
+Print Assumptions cpdag_vstructs_compelled.
+
+(* UNBOUNDED: the CPDAG has exactly the DAG's v-structures, is a well-formed PDAG, and the DAG is a consistent extension of it *)
+Theorem cpdag_vstructs : forall d ord c r, is_dag d -> topo d ord -> cpdag_model d ord = Some (V d, c, r) ->
+  (forall a y b, Vstr (mkp (V d) c r) a y b <-> Vstr d a y b) /\ wf_pdag (mkp (V d) c r) /\ consistent_ext (mkp (V d) c r) d.
+Proof. exact cpdag_vstructs_thm. Qed.
+Print Assumptions cpdag_vstructs.
+
 (* kernel computation: all labelled DAGs on <= 4 nodes, every topological order: directed edges = essential edges *)
 Theorem cpdag_essential_bounded_4 : forall n es ord, n <= 4 -> In es (dags n) ->
   let d := mkd (seq 0 n) es in
@@ -24,6 +37,19 @@ Theorem cpdag_essential_bounded_4 : forall n es ord, n <= 4 -> In es (dags n) ->
   exists c r, cpdag_model d ord = Some (seq 0 n, c, r) /\ forall a b, In (a, b) c <-> essential d a b.
 Proof. exact cpdag_essential_bounded_4_proof. Qed.
 Print Assumptions cpdag_essential_bounded_4.
+
+(* kernel computation (8 shards, ~10 CPU-min) + coverage + invariance: for EVERY DAG on the nodes 0..n-1, n <= 5
+   (29 281 DAGs for n = 5; any edge-list order, duplicates allowed) and EVERY topological order: directed = essential *)
+Theorem cpdag_essential_bounded_5 : forall n d ord, n <= 5 -> is_dag d -> V d = seq 0 n -> topo d ord ->
+  exists c r, cpdag_model d ord = Some (V d, c, r) /\ forall a b, In (a, b) c <-> essential d a b.
+Proof. exact cpdag_essential_bounded_5_proof. Qed.
+Print Assumptions cpdag_essential_bounded_5.
+
+(* unbounded: the model depends on the DAG's edge list only through its set of edges *)
+Theorem cpdag_model_invariant : forall d d' ord vs c r, geq d d' -> cpdag_model d ord = Some (vs, c, r) ->
+  exists c' r', cpdag_model d' ord = Some (vs, c', r') /\ peq c c' /\ peq r r'.
+Proof. exact cpdag_model_invariant_proof. Qed.
+Print Assumptions cpdag_model_invariant.
 
 (* the enumeration behind the bounded theorem is complete: every DAG on nodes 0..n-1 has the edge set of a member *)
 Theorem dags_enumeration_complete : forall n d, is_dag d -> V d = seq 0 n -> exists es, In es (dags n) /\ set_eq (D d) es.
